@@ -641,6 +641,7 @@ struct Lower {
       return res;
     }
     if (auto* CO = dyn_cast<ConditionalOperator>(E)) {
+      if (!E->isGLValue() && nonTrivialDtor(E->getType())) die("conditional operator yielding a class prvalue with a non-trivial destructor", E);
       std::string c = ex(CO->getCond(), cx);
       cx.condDepth++;
       std::string a = ex(CO->getTrueExpr(), cx), b = ex(CO->getFalseExpr(), cx);
